@@ -384,6 +384,8 @@ enum Write {
     Put { frames: usize, len: usize },
     PutWithChecksum,
     Complete,
+    /// CompleteMultipartUpload of an upload with one small part, created with user metadata m=mpu
+    CompleteOnePart,
     /// CopyObject from bkt/src (content + metadata m=src) onto bkt/k
     Copy,
 }
@@ -397,6 +399,7 @@ impl Write {
             Write::Put { .. } | Write::Complete => None,
             Write::PutWithChecksum => Some("new"),
             Write::Copy => Some("src"),
+            Write::CompleteOnePart => Some("mpu"),
         }
     }
 }
@@ -421,6 +424,11 @@ fn write_task_at(fs: &Arc<FileSystem>, kind: Write, content: Vec<u8>, upload_id:
                 fs.put_object(req(PutObjectInput { bucket: "bkt".into(), key: "k".into(), body: Some(blob_of(&content, 2)), content_length: Some(content.len() as i64), checksum_crc32: Some(crc), metadata: Some([("m".to_owned(), "new".to_owned())].into_iter().collect()), ..gb() }, None)).await.map(|_| ()).map_err(|e| e.code().as_str().to_owned())
             }
             Write::Copy => fs.copy_object(req(CopyObjectInput { bucket: "bkt".into(), key: "k".into(), copy_source: CopySource::Bucket { bucket: "bkt".into(), key: "src".into(), version_id: None }, ..gb() }, None)).await.map(|_| ()).map_err(|e| e.code().as_str().to_owned()),
+            Write::CompleteOnePart => fs
+                .complete_multipart_upload(req(CompleteMultipartUploadInput { bucket: "bkt".into(), key: "k".into(), upload_id: upload_id.unwrap(), multipart_upload: Some(CompletedMultipartUpload { parts: Some(vec![CompletedPart { part_number: Some(1), ..gb() }]) }), ..gb() }, None))
+                .await
+                .map(|_| ())
+                .map_err(|e| e.code().as_str().to_owned()),
             Write::Complete => fs
                 .complete_multipart_upload(req(CompleteMultipartUploadInput { bucket: "bkt".into(), key: "k".into(), upload_id: upload_id.unwrap(), multipart_upload: Some(CompletedMultipartUpload { parts: Some(vec![CompletedPart { part_number: Some(1), ..gb() }, CompletedPart { part_number: Some(2), ..gb() }]) }), ..gb() }, None))
                 .await
@@ -440,6 +448,16 @@ fn prepare(sched: &Sched, st: &Store, kind: Write) -> (Vec<u8>, Option<String>) 
                 st.fs.put_object(req(PutObjectInput { bucket: "bkt".into(), key: "src".into(), body: Some(blob_of(SRC, 1)), content_length: Some(SRC.len() as i64), metadata: Some([("m".to_owned(), "src".to_owned())].into_iter().collect()), ..gb() }, None)).await.unwrap();
             });
             (SRC.to_vec(), None)
+        }
+        Write::CompleteOnePart => {
+            let p1 = b"the-only-part-of-a-small-multipart-upload".to_vec();
+            let id = sched.block_on(async {
+                let up = st.fs.create_multipart_upload(req(CreateMultipartUploadInput { bucket: "bkt".into(), key: "k".into(), metadata: Some([("m".to_owned(), "mpu".to_owned())].into_iter().collect()), ..gb() }, None)).await.unwrap();
+                let id = up.output.upload_id.unwrap();
+                st.fs.upload_part(req(UploadPartInput { bucket: "bkt".into(), key: "k".into(), upload_id: id.clone(), part_number: 1, body: Some(blob_of(&p1, 1)), ..gb() }, None)).await.unwrap();
+                id
+            });
+            (p1, Some(id))
         }
         Write::Complete => {
             let p1: Vec<u8> = vec![b'P'; 5 * 1024 * 1024];
@@ -464,7 +482,7 @@ fn copy_tree(from: &Path, to: &Path) {
 }
 
 fn part_bc(acc: &mut Acc, tier: Tier) {
-    let mut kinds = vec![Write::Put { frames: 1, len: 10 }, Write::Put { frames: 3, len: 9000 }, Write::Put { frames: 2, len: 20_000 }, Write::PutWithChecksum, Write::Copy];
+    let mut kinds = vec![Write::Put { frames: 1, len: 10 }, Write::Put { frames: 3, len: 9000 }, Write::Put { frames: 2, len: 20_000 }, Write::PutWithChecksum, Write::Copy, Write::CompleteOnePart];
     if tier == Tier::Thorough {
         kinds.push(Write::Complete);
         kinds.push(Write::Put { frames: 8, len: 70_000 });
@@ -878,7 +896,7 @@ pub fn run(ctx: &Ctx) -> (Acc, Report) {
     }
     let rep = Report {
         level: "fault_enumeration",
-        rule: format!("(a) PutObject through S3Service::call with s3s-fs behind it: body I/O error after k of n frames for n in {{1,2,4}}, k in 0..n; wrong and right checksum for CRC32, CRC32C, SHA-1, SHA-256; corrupted signature in chunk k of a 1-, 2-, 3-chunk chunk-signed body (incl. the final chunk); each with the key absent and present and under 3-4 transport framings (as built, an empty frame before every frame, 1-byte frames, a frame boundary right after every chunk header line); writes whose final rename / directory step fails (a directory where the object should go, a file where a directory is needed). (b) every abandon point: the request future dropped after every step p, both while the submitted file-system call is still queued and after it has completed; (c) every crash point: the tree copied after every step and restarted with FileSystem::new; for writes {:?}. (d) all interleavings at file-system-call granularity of two writers (10 B vs 9000 B) and of writer + reader; two writers + reader and three writers with at most {} preemption(s); all interleavings of two writers to different objects (same key in two buckets, same file name in two directories, two keys). Oracle: a later read returns the previous state or one complete version - content and user metadata of the same version -, the reader receives one complete version, the final content is one writer's bytes, no .tmp.* file remains. Distinct by id.", if ctx.tier == Tier::Thorough { "put x4, put+checksum+metadata, copy-object, complete-multipart (5 MiB + 4 B)" } else { "put x3 sizes/framings, put+checksum+metadata, copy-object (content + metadata)" }, ctx.tier.pick(2, 3)),
+        rule: format!("(a) PutObject through S3Service::call with s3s-fs behind it: body I/O error after k of n frames for n in {{1,2,4}}, k in 0..n; wrong and right checksum for CRC32, CRC32C, SHA-1, SHA-256; corrupted signature in chunk k of a 1-, 2-, 3-chunk chunk-signed body (incl. the final chunk); each with the key absent and present and under 3-4 transport framings (as built, an empty frame before every frame, 1-byte frames, a frame boundary right after every chunk header line); writes whose final rename / directory step fails (a directory where the object should go, a file where a directory is needed). (b) every abandon point: the request future dropped after every step p, both while the submitted file-system call is still queued and after it has completed; (c) every crash point: the tree copied after every step and restarted with FileSystem::new; for writes {:?}. (d) all interleavings at file-system-call granularity of two writers (10 B vs 9000 B) and of writer + reader; two writers + reader and three writers with at most {} preemption(s); all interleavings of two writers to different objects (same key in two buckets, same file name in two directories, two keys). Oracle: a later read returns the previous state or one complete version - content and user metadata of the same version -, the reader receives one complete version, the final content is one writer's bytes, no .tmp.* file remains. Distinct by id.", if ctx.tier == Tier::Thorough { "put x4, put+checksum+metadata, copy-object, complete-multipart (one small part with metadata; 5 MiB + 4 B)" } else { "put x3 sizes/framings, put+checksum+metadata, copy-object (content + metadata), complete-multipart (one small part, metadata from creation)" }, ctx.tier.pick(2, 3)),
         exhaustive: true,
         extra: json!({"granularity": "one step = one task runs from one file-system await to the next (tokio blocking pool of one thread, gated)"}),
         assumptions: vec![
